@@ -45,12 +45,16 @@ AllQ(p) == UNION {SeqToSet(p.oskeys[i].qs) : i \in DOMAIN p.oskeys}
 QOf(p, S) == UNION {SeqToSet(p.oskeys[i].qs) : i \in S}
 IsPress(p) == p.variant \in {"press", "press-pcancel"}
 IsPcancel(p) == p.variant \in {"press-pcancel", "release-pcancel"}
+\* every one-shot key carries its own timeout (oskeys[i].T); the timeout in force is the one of the most recently
+\* pressed one-shot key ("one-shot keys tapped in a row combine and restart the timeout"); p.T is the largest of them
+KeyT(p, i) == p.oskeys[i].T
 
 MonInit(p) ==
   [p |-> p,
    held |-> {},          \* indices of one-shot keys physically down (by arrival)
    chain |-> {},         \* indices of one-shot keys tapped/pressed since the activation began
    el |-> 0,             \* ticks since the last one-shot press arrived (capped)
+   curT |-> p.T,         \* timeout of the most recently pressed one-shot key
    sharp |-> FALSE,      \* the activation chain is in the sharp zone
    gapIn |-> 0,          \* inputs arrived since the last tick
    used |-> FALSE,       \* an other key was pressed since the activation (press variants)
@@ -79,14 +83,14 @@ MonIn(m, r) ==
                  \* active key ends it in the pcancel variants (O6)
                  \* in the sharp zone a press arriving T or more ticks after the previous one-shot
                  \* press is processed on the tick the previous activation expires: a fresh activation
-                 LET over == m.ended = "yes" \/ (m.sharp /\ ~m.used /\ m.el >= p.T)
+                 LET over == m.ended = "yes" \/ (m.sharp /\ ~m.used /\ m.el >= m.curT)
                      repress == IsPcancel(p) /\ i \in m.chain /\ ~over
-                     surelyExt == ~over /\ m.rsharp /\ m.ended = "no" /\ m.rel + m.lagq < p.T
+                     surelyExt == ~over /\ m.rsharp /\ m.ended = "no" /\ m.rel + m.lagq < m.curT
                  IN
                  IF repress
                  THEN [m0 EXCEPT !.held = @ \cup {i}, !.sharp = FALSE, !.el = 0, !.plain = @ \ {i}, !.rsharp = FALSE,
                                  !.ended = IF m.ended = "no" /\ m.sharp /\ inSync THEN "yes" ELSE "maybe"]
-                 ELSE [m0 EXCEPT !.held = @ \cup {i}, !.plain = @ \cup {i},
+                 ELSE [m0 EXCEPT !.held = @ \cup {i}, !.plain = @ \cup {i}, !.curT = KeyT(p, i),
                                  !.rel = 0 - m.lagq,
                                  !.rsharp = IF over THEN m.lastIdle /\ m.quiet > p.red /\ m.pend = <<>> /\ m.lagq = 0
                                             ELSE m.rsharp,
@@ -107,8 +111,8 @@ MonIn(m, r) ==
                 \* must this key come out unmodified?  (decided by what had arrived before it)
                 clean == m.held = {} /\ (m.ended = "yes" \/ (IsPress(p) /\ m.used))
                 \* must it come out modified?  (sharp zone only)
-                mod == \/ m.ended = "no" /\ ~m.used /\ m.sharp /\ inSync /\ m.el < p.T /\ IsPress(p)
-                       \/ ~IsPress(p) /\ m.ended = "no" /\ m.rsharp /\ m.rel + m.lagq < p.T
+                mod == \/ m.ended = "no" /\ ~m.used /\ m.sharp /\ inSync /\ m.el < m.curT /\ IsPress(p)
+                       \/ ~IsPress(p) /\ m.ended = "no" /\ m.rsharp /\ m.rel + m.lagq < m.curT
                 m1 == [m0 EXCEPT !.used = TRUE, !.afterAct = IF m.ended = "yes" THEN @ ELSE @ \cup {r.c},
                                  !.sharp = FALSE]
             IN IF o >= 0 THEN [m1 EXCEPT !.pend = Append(@, [o |-> o, clean |-> clean, mod |-> mod,
@@ -154,9 +158,9 @@ MonTick(m, out, idle, cb) ==
         \* sharp zone, no other input: down from tick 1, up exactly at tick 1 + T (unless held)
         sharpNow == m.sharp /\ ~m.used /\ m.ended = "no" /\ m.gapIn <= 1
         m2 == IF m1.err # "" THEN m1
-              ELSE IF sharpNow /\ T >= 1 /\ T < 1 + p.T /\ ~(qsChain \subseteq m1.down)
+              ELSE IF sharpNow /\ T >= 1 /\ T < 1 + m.curT /\ ~(qsChain \subseteq m1.down)
               THEN Fail(m1, "C06 O1/O3: the one-shot output is not applied while the one-shot is active")
-              ELSE IF sharpNow /\ T >= 1 + p.T /\ m.held = {} /\ (qsChain \cap m1.down) # {}
+              ELSE IF sharpNow /\ T >= 1 + m.curT /\ m.held = {} /\ (qsChain \cap m1.down) # {}
               THEN Fail(m1, "C06 O3: the one-shot did not expire at its timeout")
               \* idle twice in a row with no input in between: nothing is pending inside kanata
               ELSE IF m.held = {} /\ idle /\ m.lastIdle /\ m.gapIn = 0 /\ m1.pend = <<>> /\ (AllQ(p) \cap m1.down) # {}
@@ -168,7 +172,7 @@ MonTick(m, out, idle, cb) ==
               ELSE m1
         \* kanata idle twice in a row with no input in between and no one-shot key held: no one-shot is active
         stable == idle /\ m.lastIdle /\ m.gapIn = 0 /\ m.held = {}
-        expired == T >= 1 + p.T /\ m.held = {} /\ sharpNow
+        expired == T >= 1 + m.curT /\ m.held = {} /\ sharpNow
     IN [m2 EXCEPT !.el = OMin(T, p.T + 2), !.gapIn = 0, !.lastIdle = idle,
                   !.rel = OMin(m.rel + 1, p.T + 2), !.lagq = IF m.lagq > 0 THEN m.lagq - 1 ELSE 0,
                   !.rsharp = m2.rsharp /\ ~expired /\ ~stable,
